@@ -318,6 +318,7 @@ static HOOKS: simhook::Hooks = simhook::Hooks {
     unpark: hook_unpark,
     spawn: hook_spawn,
     now: hook_now,
+    op_supported: |_| None,
 };
 
 pub fn install() {
